@@ -47,3 +47,8 @@ claim("C11", "static analysis: call-order dominance, error guard dominance (SCCP
   "Decides that Append acknowledges only after rotate-check ≺ marshal ≺ write ≺ fsync with every error guarding the next step and the epoch bookkeeping after both the rotation decision and the fsync; that the reader appends only successfully decoded records into a per-iteration fresh variable and that EVERY exit after a successful open returns the accumulated prefix with the running max epoch over all decoded entries; that write-mode opens are exclusive-create under a fresh name and only rotate installs the active file; that Purge removes only closed files whose max epoch is strictly below the bound and keeps the others listed; flush order; lock discipline (C11.R1–R6). Structural necessary conditions; torn-record decoding and filesystem semantics are not decided.",
   "AS1 fsync durability; trusts go/types, go/ssa (generic instantiation for walEntry), checker/c11.go.",
   "DESIGN.md §4 C11")
+
+claim("C12", "static analysis: guard/ordering dominance on the broadcast paths, who-may-publish, SCCP decision table of the equivocation filter, wrap-aware linear form of the purge bound",
+  "Decides that in BroadcastMessage/rebroadcastMessage nothing leaves the node when the filter refuses, filter ≺ WAL append ≺ publish, and the appended message is the published one; that the consensus topic has no other publisher; that start replays every WAL entry into the filter before the runner exists; the filter's must-rows (past instance refused without state change, conflicting local signature refused, stored signatures never overwritten, newer instance resets before lookup, slot = sender/round/phase); that WAL entries carry the whole message with epoch = instance and are distinct objects on read-back; and that the purge bound instance − 5 cannot wrap (C12.R1–R7). Structural necessary conditions; delivery and storage faults are not decided.",
+  "AS1 WAL durability (C11); trusts go/types, go/ssa, checker/c12.go.",
+  "DESIGN.md §4 C12")
